@@ -133,11 +133,15 @@ def main(run):
                     break
             run.ok(kind="normalized")
             tot = sum(exp.values(), Q(0))
+            # "zero sum" is a statement about the values the tracker actually holds: exact in Q mode, the float sum otherwise
+            # (float means of inputs whose exact means cancel need not cancel: that is not the zero-sum case)
+            fsum = None if exactmode else sum(got.values())
+            zero = (tot == 0) if exactmode else (fsum == 0)
             if len(seen_keys) <= 1:
                 if not all(norm[k] == got[k] for k in seen_keys) or set(norm) != set(seen_keys):
                     run.violation("normalize-single-key", f"{tag}: <=1 key must give raw values, got {norm!r}", replay)
                     ok_hist = False
-            elif tot == 0 and (exactmode or all(float(got[k]) == float(exp[k]) for k in seen_keys)):
+            elif zero:
                 run.count("zero-sum-states")
                 if not all(type(v) in (int, float, np.float64, np.float32, Q) and v == 0 and finite(v) for v in norm.values()) \
                         or set(norm) != set(seen_keys) or fp_events:
@@ -146,8 +150,7 @@ def main(run):
             elif tot != 0:
                 s = sum(norm.values())
                 nt = 0 if exactmode else 1e-9 if typ != "np32" else 1e-3
-                ftot = float(sum(float(got[k]) for k in seen_keys))
-                well = exactmode or abs(ftot) > 1e-6 * sc    # float sums that cancel to ~0 (relative to the data) are ill-conditioned: skip ratios
+                well = exactmode or abs(float(fsum)) > 1e-6 * sc    # float sums that nearly cancel are ill-conditioned: skip ratios
                 if well:
                     run.count("nonzero-sum-states")
                     good = (s == 1) if exactmode else abs(float(s) - 1) <= nt
